@@ -4,9 +4,13 @@ package proxy
 
 import (
 	"bufio"
+	"bytes"
 	"context"
 	"crypto/tls"
 	"fmt"
+	"github.com/fabiolb/fabio/metrics"
+	"github.com/fabiolb/fabio/route"
+	grpc_proxy "github.com/mwitkow/grpc-proxy/proxy"
 	"io"
 	"net"
 	"net/http"
@@ -103,6 +107,132 @@ func c18Start(kind, addr string, w *c18Work) (doWork func() string) {
 	case "https+tcp+sni":
 		go ListenAndServeHTTPSTCPSNI(l, httpH, tcpH, tlsCfg, func(context.Context, string) bool { return false })
 		return httpWork("https")
+	case "http+ws":
+		// a websocket tunnel through the real HTTPProxy on an http listener: the work is the open tunnel
+		upl, err := net.Listen("tcp", "127.0.0.1:0")
+		if err != nil {
+			panic(err)
+		}
+		go func() {
+			for {
+				c, err := upl.Accept()
+				if err != nil {
+					return
+				}
+				go func() {
+					defer c.Close()
+					br := bufio.NewReader(c)
+					for {
+						line, err := br.ReadString('\n')
+						if err != nil {
+							return
+						}
+						if line == "\r\n" {
+							break
+						}
+					}
+					io.WriteString(c, "HTTP/1.1 101 Switching Protocols\r\nUpgrade: websocket\r\nConnection: Upgrade\r\n\r\n")
+					io.Copy(c, br) // echo
+				}()
+			}
+		}()
+		tb, err := route.NewTable(bytes.NewBufferString("route add ws / http://" + upl.Addr().String() + "/\n"))
+		if err != nil {
+			panic(err)
+		}
+		var wsTarget *route.Target
+		for _, rs := range tb {
+			wsTarget = rs[0].Targets[0]
+		}
+		hp := &HTTPProxy{Transport: &http.Transport{}, Lookup: func(r *http.Request) *route.Target {
+			if r.Header.Get("Upgrade") == "" {
+				return nil
+			}
+			return wsTarget
+		}}
+		go ListenAndServeHTTP(l, hp, nil)
+		return func() string {
+			c, err := net.DialTimeout("tcp", addr, 2*time.Second)
+			if err != nil {
+				return "error: " + err.Error()
+			}
+			defer c.Close()
+			c.SetDeadline(time.Now().Add(60 * time.Second))
+			io.WriteString(c, "GET /ws HTTP/1.1\r\nHost: x\r\nUpgrade: websocket\r\nConnection: Upgrade\r\n\r\n")
+			br := bufio.NewReader(c)
+			status, err := br.ReadString('\n')
+			if err != nil || !strings.Contains(status, "101") {
+				return "error: upgrade failed: " + status + fmt.Sprint(err)
+			}
+			for {
+				line, err := br.ReadString('\n')
+				if err != nil {
+					return "error: " + err.Error()
+				}
+				if line == "\r\n" {
+					break
+				}
+			}
+			w.entered <- struct{}{}
+			<-w.release
+			if _, err := io.WriteString(c, "ping"); err != nil {
+				return "error: tunnel write: " + err.Error()
+			}
+			b := make([]byte, 4)
+			if _, err := io.ReadFull(br, b); err != nil || string(b) != "ping" {
+				return "error: tunnel cut: " + fmt.Sprint(err)
+			}
+			return "done"
+		}
+	case "grpc-proxy":
+		// fabio's own gRPC proxy (director, pool, interceptor as main.newGrpcProxy wires them) in front of an
+		// upstream that accepts the TCP connection and never speaks HTTP/2: the call in flight is the work
+		silent, err := net.Listen("tcp", "127.0.0.1:0")
+		if err != nil {
+			panic(err)
+		}
+		go func() {
+			for {
+				c, err := silent.Accept()
+				if err != nil {
+					return
+				}
+				go func() { io.Copy(io.Discard, c); c.Close() }()
+			}
+		}()
+		tb, err := route.NewTable(bytes.NewBufferString("route add g /verif.Work grpc://" + silent.Addr().String() + " opts \"proto=grpc\"\n"))
+		if err != nil {
+			panic(err)
+		}
+		route.SetTable(tb)
+		cfg := &config.Config{}
+		cfg.Proxy.Strategy, cfg.Proxy.Matcher, cfg.GlobCacheSize = "rr", "prefix", 10
+		cfg.Proxy.DialTimeout = 30 * time.Second
+		cfg.Proxy.GRPCMaxRxMsgSize, cfg.Proxy.GRPCMaxTxMsgSize = 1<<20, 1<<20
+		cfg.Proxy.GRPCGShutdownTimeout = 20 * time.Millisecond
+		p := metrics.DiscardProvider{}
+		stats := &GrpcStatsHandler{Connect: p.NewCounter("c"), Request: p.NewHistogram("r"), NoRoute: p.NewCounter("n"), Status: p.NewHistogram("s", "code")}
+		ic := GrpcProxyInterceptor{Config: cfg, StatsHandler: stats, GlobCache: route.NewGlobCache(10)}
+		opts := []grpc.ServerOption{grpc.CustomCodec(grpc_proxy.Codec()), grpc.UnknownServiceHandler(grpc_proxy.TransparentHandler(GetGRPCDirector(nil, cfg))), grpc.StreamInterceptor(ic.Stream), grpc.StatsHandler(stats)}
+		go ListenAndServeGRPC(l, opts, nil)
+		return func() string {
+			cc, err := grpc.NewClient(addr, grpc.WithTransportCredentials(insecure.NewCredentials()))
+			if err != nil {
+				return "error: " + err.Error()
+			}
+			defer cc.Close()
+			ctx, cancel := context.WithTimeout(context.Background(), 60*time.Second)
+			defer cancel()
+			st, err := cc.NewStream(ctx, &grpc.StreamDesc{ServerStreams: true, ClientStreams: true}, "/verif.Work/Stream")
+			if err != nil {
+				return "error: " + err.Error()
+			}
+			st.SendMsg(&grpc_testing.Empty{})
+			w.entered <- struct{}{} // the call is on its way to an upstream that will never answer
+			var m grpc_testing.Empty
+			err = st.RecvMsg(&m)
+			return "error: " + fmt.Sprint(err)
+		}
 	case "tcp":
 		go ListenAndServeTCP(l, tcpH, nil)
 		return func() string {
@@ -167,8 +297,8 @@ func c18WaitListening(kind, addr string) bool {
 
 func TestVerifC18Servers(t *testing.T) {
 	L := ev.Begin("C18", "c18-servers", "exploration",
-		"scenario matrix on real servers started through fabio's own ListenAndServe*: listener {http, https, tcp, grpc, https+tcp+sni} x in-flight work {none, finishes when released, never ends (hanging handler / open tunnel / open gRPC stream) with a wait of 300ms and of 0} x shutdown moment {before any request, request inside its handler, released right after shutdown began}, sequenced by causal barriers (handler-entered and listener-refuses-connect signals), then proxy.Shutdown(wait); plus every ordered pair of an idle and a busy listener of different kinds whose work ends 300 ms after shutdown began, also with both on the same port number of two local addresses (127.0.0.1:P, 127.0.0.2:P). plus four listeners with never-ending work and a wait of 2s. oracle: after shutdown began connects fail (on every listener, also while others are still draining); released work completes with its normal result; Shutdown returns within wait + 5s slack (a miss means 'did not return'). non-trivial = every scenario")
-	kinds := []string{"http", "https", "tcp", "grpc", "https+tcp+sni"}
+		"scenario matrix on real servers started through fabio's own ListenAndServe*: listener {http, https, tcp, grpc, https+tcp+sni, http carrying a websocket tunnel} x in-flight work {none, finishes when released, never ends (hanging handler / open tunnel / open gRPC stream) with a wait of 300ms and of 0} x shutdown moment {before any request, request inside its handler, released right after shutdown began}, sequenced by causal barriers (handler-entered and listener-refuses-connect signals), then proxy.Shutdown(wait); plus every ordered pair of an idle and a busy listener of different kinds whose work ends 300 ms after shutdown began, also with both on the same port number of two local addresses (127.0.0.1:P, 127.0.0.2:P). plus four listeners with never-ending work and a wait of 2s. oracle: after shutdown began connects fail (on every listener, also while others are still draining); released work completes with its normal result; Shutdown returns within wait + 5s slack (a miss means 'did not return'). non-trivial = every scenario")
+	kinds := []string{"http", "https", "tcp", "grpc", "https+tcp+sni", "http+ws"}
 	type scn struct {
 		kind string
 		work string // none | released | never
@@ -179,6 +309,8 @@ func TestVerifC18Servers(t *testing.T) {
 			scs = append(scs, scn{k, w})
 		}
 	}
+	// fabio's own gRPC proxy with a call in flight to an upstream that never completes the HTTP/2 handshake
+	scs = append(scs, scn{"grpc-proxy", "never"}, scn{"grpc-proxy", "none"})
 	// several listeners at once: one idle (finishes its shutdown at once), one with work
 	// that ends well within the wait
 	type pair struct{ idle, busy string }
